@@ -758,6 +758,17 @@ def frames_check(ctx, relevant_kinds, monitor, n_quick, n_thorough, deps, nontri
     for run in allruns:
         cases = split_traces(os.path.join(run["dir"], "cases.txt"))
         verdicts = frames_verdicts(run)
+        # once per check: an independent reading of the trace lines, evaluated inside Coq, against the extracted model's verdicts
+        if ctx.prop == "C05" and "frames_crosscheck" not in ctx.cov and run.get("n", 0) > 0 and not run.get("skipped"):
+            import crosscheck
+            try:
+                ncmp, bad = crosscheck.frames_crosscheck(ctx, run, verdicts, 25 if ctx.tier == "quick" else 150)
+            except Exception as e:
+                ncmp, bad = 0, ["cross-check failed: %r" % e]
+            ctx.cov["frames_crosscheck"] = {"cases_evaluated_in_coq": ncmp, "disagreements": len(bad)}
+            if bad:
+                ctx.note("trace cross-check: " + "; ".join(bad[:3]))
+                ctx.internal_error = True
         if run["rc"] != 0:
             what = "implementation run failed (panic, hang or livelock): " + run["log"][-1500:]
             sig = "frames-run-failed"
